@@ -44,8 +44,8 @@ theorem handleCompletions_persistent (s : Env) (n : Nat) :
   simpa using handleCompletionsList_persistent { s with backend := b' } cs
 
 theorem handleDeliver_persistent (s : Env) (t : Pid) (v : Val) :
-    (handleDeliver s t v).persistent = s.persistent ∧ (handleDeliver s t v).nextPid = s.nextPid := by
-  unfold handleDeliver; simp only; split <;> exact ⟨rfl, rfl⟩
+    (handleDeliver s t v).persistent = s.persistent ∧ (handleDeliver s t v).nextPid = s.nextPid :=
+  ⟨(handleDeliver_frame s t v).1, (handleDeliver_frame s t v).2.1⟩
 
 theorem handleSpawn_persistent (s : Env) (c : Pid) (caps : List Val) (arg : Val) :
     (handleSpawn s c caps arg).persistent = s.persistent ∧
@@ -72,6 +72,9 @@ theorem persInv_step {s : Sys} (h : PersInv s) (ev : Event) : PersInv (step s ev
     · exact Nat.lt_succ_self _
     · exact Nat.lt_succ_of_lt (h p hp)
   | terminate q => exact h p hp
+  | exited q =>
+    simp only [step, handleProcessExited_persistent, handleProcessExited_nextPid] at hp ⊢
+    exact h p hp
   | request q e w =>
     simp only [step, handleEffectRequest_persistent, handleEffectRequest_nextPid] at hp ⊢
     exact h p hp
@@ -92,5 +95,69 @@ theorem persInv_run {s : Sys} (h : PersInv s) (evs : List Event) : PersInv (run 
   induction evs generalizing s with
   | nil => exact h
   | cons ev rest ih => exact ih (persInv_step h ev)
+
+/-! ### `exited_processes` along a step -/
+
+@[simp] theorem reportEffectError_exited (s : Env) (p : Pid) :
+    (reportEffectError s p).exited = s.exited := by
+  unfold reportEffectError; split <;> rfl
+
+@[simp] theorem handleEffectCompletion_exited (s : Env) (p : Pid) (res : Res) :
+    (handleEffectCompletion s p res).exited = s.exited := by
+  unfold handleEffectCompletion
+  cases res <;> simp <;> split <;> rfl
+
+theorem handleEffectRequest_exited (s : Env) (p : Pid) (e : Effect) (w : Bool) :
+    (handleEffectRequest s p e w).exited = s.exited := by
+  by_cases h : violatesOwnership s.owner p e = true
+  · simp [handleEffectRequest_rejected _ _ _ _ h]
+  · have h' : violatesOwnership s.owner p e = false := by simpa using h
+    rw [handleEffectRequest_accepted _ _ _ _ h']
+    cases (s.backend.execute p e w).2 <;> simp
+
+theorem handleCompletionsList_exited (s : Env) (cs : List (Pid × Res)) :
+    (handleCompletionsList s cs).exited = s.exited := by
+  induction cs generalizing s with
+  | nil => rfl
+  | cons c rest ih => obtain ⟨p, r⟩ := c; simp [handleCompletionsList, ih]
+
+theorem handleCompletions_exited (s : Env) (n : Nat) : (handleCompletions s n).exited = s.exited := by
+  unfold handleCompletions
+  rcases h : s.backend.processCompletions n with ⟨b', cs⟩
+  simpa using handleCompletionsList_exited { s with backend := b' } cs
+
+theorem handleSpawn_exited (s : Env) (c : Pid) (caps : List Val) (arg : Val) :
+    (handleSpawn s c caps arg).exited = s.exited := by
+  unfold handleSpawn; simp only; split <;> rfl
+
+theorem handleCleanups_exited (s : Env) (rs : List (Pid × Bool)) :
+    (handleCleanups s rs).exited = s.exited := by
+  induction rs generalizing s with
+  | nil => rfl
+  | cons x rest ih =>
+    obtain ⟨p, b⟩ := x
+    cases b <;> simp [handleCleanups, ih, cleanupProcessResources]
+
+/-- Only `ProcessExited` adds to `exited_processes`. -/
+theorem step_exited (s : Sys) (ev : Event) :
+    (step s ev).env.exited = match ev with
+      | .exited p => p :: s.env.exited
+      | _ => s.env.exited := by
+  cases ev with
+  | start => rfl
+  | terminate p => rfl
+  | exited p => rfl
+  | request p e w => simp only [step, handleEffectRequest_exited]
+  | completions n => simp only [step, handleCompletions_exited]
+  | send a t v => simp only [step, (handleDeliver_frame _ _ _).2.2.1]
+  | spawn c caps arg => simp only [step, handleSpawn_exited]
+  | results a rs => simp only [step, handleProcessResults, handleCleanups_exited]
+
+theorem step_terminated (s : Sys) (ev : Event) :
+    (step s ev).terminated = match ev with
+      | .terminate p => p :: s.terminated
+      | _ => s.terminated := by
+  cases ev <;> rfl
+
 
 end QM.Resources
